@@ -40,6 +40,7 @@ def _step(draw):
     if op in ("q", "burst"):
         s["d"] = draw(st.integers(0, 3))
         s["kind"] = draw(st.sampled_from(["offer", "stop", "ack", "nack"]))
+        s["re"] = draw(st.sampled_from([False, False, True]))   # same ids as the previous entry of that family (offer/stop, ack/nack)
         if op == "burst":
             s["n"] = draw(st.sampled_from([2, 3, 16, 17, 40]))
     return s
@@ -97,10 +98,16 @@ def run_case(case):
                 ann.announce_service(sd.ServiceInstance(cfg.Service(0xEE00, iid, 1, 0), ServerRec(sim, [], "I"), ann, tm))
         started = [False]
         tag = [0]
+        last_kind = {}
         T = hdr.SOMEIPSDEntryType
 
-        def entry(kind):
-            tag[0] += 1
+        def entry(kind, reuse=False):
+            # entries are told apart by their ids; with reuse the ids of the previous entry are kept, so that e.g. an offer
+            # and the StopOffer of the same service, or an Ack and a Nack of the same subscription, share a collector
+            # (they still differ in TTL; two entries that are fully identical are avoided)
+            if not (reuse and tag[0] and last_kind.get("k") != kind):
+                tag[0] += 1
+            last_kind["k"] = kind
             if kind in ("offer", "stop"):
                 return hdr.SOMEIPSDEntry(sd_type=T.OfferService, service_id=tag[0], instance_id=1, major_version=1, ttl=3 if kind == "offer" else 0, minver_or_counter=tag[0])
             return hdr.SOMEIPSDEntry(sd_type=T.SubscribeAck, service_id=0x2000, instance_id=1, major_version=1, ttl=5 if kind == "ack" else 0, minver_or_counter=tag[0] & 0xFFFF)
@@ -108,7 +115,7 @@ def run_case(case):
         def execute(k, s):
             op = s["op"]
             if op == "q":
-                ann.queue_send(entry(s.get("kind", "offer")), remote=DESTS[s.get("d", 0) % len(DESTS)])
+                ann.queue_send(entry(s.get("kind", "offer"), s.get("re", False)), remote=DESTS[s.get("d", 0) % len(DESTS)])
             elif op == "burst":
                 nn = max(1, min(40, s.get("n", 2)))
                 if nn > 15:
